@@ -269,19 +269,20 @@ def Sim3AdjTXa (X : Sim3 α) (a : sim3 α) : DVec α := (Sim3Adj (Sim3Inv X)).mu
 
 /-! ## left Jacobians of the bigger groups -/
 
-/-- `calcQ` -/
-def calcQ (eps : α) (x : se3 α) : Mat3 α :=
+/-- `calcQ` (series branch below θ = 0.05, closed form above; `eps` is unused but kept for a uniform signature) -/
+def calcQ (_eps : α) (x : se3 α) : Mat3 α :=
   let T := Mat3.hat x.tau
   let P := Mat3.hat x.phi
   let th := x.phi.norm
   let th2 := th * th
   let th4 := th2 * th2
   let (c1, c2, c3) :=
-    if Scalar.lt eps th then
+    if Scalar.lt (q 5 100) th then   -- the code switches to the series below θ = 0.05 (not at eps)
       ((th - Scalar.sin th) / (th2 * th),
        (th2 + k 2 * Scalar.cos th - k 2) / (k 2 * th4),
        (k 2 * th - k 3 * Scalar.sin th + th * Scalar.cos th) / (k 2 * th4 * th))
-    else (q 1 6 - q 1 120 * th2, q 1 24 - q 1 720 * th2, q 1 120 - q 1 2520 * th2)
+    else (q 1 6 - q 1 120 * th2 + q 1 5040 * th4, q 1 24 - q 1 720 * th2 + q 1 40320 * th4,
+          q 1 120 - q 1 2520 * th2 + q 1 120960 * th4)
   let PT := P.mul T; let TP := T.mul P; let PTP := PT.mul P
   let PPT := P.mul PT; let TPP := TP.mul P
   let PTPP := PTP.mul P; let PPTP := P.mul PTP
